@@ -490,6 +490,17 @@ func c08Corpus() []c08Seed {
 			}
 		}
 	}
+	// hand-written GeoJSON with 2- and 3-element positions mixed inside one document (it decodes as 2D): the
+	// dimensionality decision is global, so a single edit elsewhere (a short or over-long position in a later
+	// member) meets a decoder that has already seen both lengths
+	for i, doc := range []string{
+		`{"type":"GeometryCollection","geometries":[{"type":"Point","coordinates":[1,2]},{"type":"Point","coordinates":[1,2,3]},{"type":"LineString","coordinates":[[1,2],[3,4,5]]},{"type":"MultiPoint","coordinates":[[0,0],[1,1,1]]},{"type":"GeometryCollection","geometries":[{"type":"Polygon","coordinates":[[[0,0,1],[1,0],[1,1,1],[0,0]]]},{"type":"Point","coordinates":[5,6]}]}]}`,
+		`{"type":"MultiLineString","coordinates":[[[0,0,0],[1,1,1]],[[2,2],[3,3]],[[4,4,4],[5,5]]]}`,
+		`{"type":"MultiPolygon","coordinates":[[[[0,0],[1,0],[1,1],[0,0]]],[[[5,5,1],[6,5,1],[6,6,1],[5,5,1]]],[[[8,8],[9,8,2],[9,9],[8,8]]]]}`,
+		`{"type":"Feature","geometry":{"type":"GeometryCollection","geometries":[{"type":"Point","coordinates":[1,2,3]},{"type":"Point","coordinates":[1,2]},{"type":"MultiPoint","coordinates":[[7,7],[8,8]]}]},"properties":{}}`,
+	} {
+		out = append(out, c08Seed{format: "geojson", data: []byte(doc), name: fmt.Sprintf("mixed-dimensions-%d", i)})
+	}
 	c08CorpusCache = out
 	return out
 }
